@@ -89,6 +89,16 @@ fn programs(quick: bool) -> Vec<(Program, bool)> {
     ] {
         v.push((mk(format!("clock+2s;upsert(k,{});get(k);get_ref(k) on an expired-unswept key", name), 100, vec![put_ttl(1, 30, 1000)], vec![vec![adv(2000), op, get(1), rd(1, ReadVariant::GetRef)]]), false));
     }
+    // sequential: every accepted upsert that carries a value supersedes the old one, whatever else the request says
+    // and whatever the key's TTL state (none, live, removed a moment ago)
+    {
+        let vr = Op::Upsert { k: 1, value: true, w: None, ttl_ms: None, remove_ttl: true };
+        let vt = Op::Upsert { k: 1, value: true, w: None, ttl_ms: Some(4000), remove_ttl: false };
+        let vw = Op::Upsert { k: 1, value: true, w: Some(31), ttl_ms: None, remove_ttl: false };
+        v.push((mk("upsert(k,value+remove-ttl);get;upsert(k,value+remove-ttl);read_all on a key without TTL".into(), 100, vec![put(1, 30)], vec![vec![vr.clone(), get(1), vr.clone(), Op::ReadAll { keys: vec![1] }]]), false));
+        v.push((mk("upsert(k,value+remove-ttl) twice;read_all on a TTL key".into(), 100, vec![put_ttl(1, 30, 9000)], vec![vec![vr.clone(), get(1), vr.clone(), Op::ReadAll { keys: vec![1] }]]), false));
+        v.push((mk("upsert(k,value+ttl);get;upsert(k,value+weight);get;upsert(k,value+remove-ttl);read_all".into(), 100, vec![put(1, 30)], vec![vec![vt, get(1), vw, get(1), vr, Op::ReadAll { keys: vec![1] }]]), false));
+    }
     // reference reads of a TTL key while its delete is in flight
     for var in [ReadVariant::GetRef, ReadVariant::MapGetRef] {
         v.push((mk(format!("delete(k);{:?}(k)||{:?}(k)x2 /ttl", var, var), 100, vec![put_ttl(1, 30, 9000)], vec![vec![del(1), rd(1, var)], vec![rd(1, var), rd(1, var)]]), false));
@@ -104,6 +114,16 @@ fn agree_oracle() -> SeqOracle {
     Arc::new(|run: &SeqRun, out: &mut Vec<crate::harness::seq::Finding>| {
         let i = run.last();
         let c = &run.calls[i];
+        if let (Op::MultiRead { keys, variant }, Res::MultiRead(vs)) = (&c.op, &c.res) {
+            let before = run.before();
+            for (i, k) in keys.iter().enumerate() {
+                let (exp, specified) = model_read(before, *k);
+                let got = vs.get(i).copied().flatten();
+                if specified && got != exp {
+                    out.push(crate::harness::seq::Finding::new("read-disagrees-with-state", "read:multi-key-position-disagrees", format!("{:?}({:?}) returned {:?} at position {} (key {}) but the stored entry says {:?}", variant, keys, got, i, k, exp)));
+                }
+            }
+        }
         if let Op::ReadAll { .. } = &c.op {
             let before = run.before();
             let results = read_all_results(c);
@@ -128,7 +148,22 @@ fn agree_spec(ctx: &Ctx) -> SeqSpec {
         setup: Setup { weight: 5, buffer: 64, hash_fn: HashFn::Constant(3), ..Setup::default() },
         world: Default::default(),
         prefix: vec![],
-        alphabet: vec![put(1, 2), put_ttl(2, 2, 1500), put(3, 4), Op::Upsert { k: 1, value: true, w: None, ttl_ms: None, remove_ttl: false }, Op::Upsert { k: 2, value: true, w: None, ttl_ms: Some(3000), remove_ttl: false }, del(1), del(2), adv(2000), Op::TickWait, Op::ReadAll { keys: vec![1, 2, 3] }],
+        alphabet: vec![
+            put(1, 2),
+            put_ttl(2, 2, 1500),
+            put(3, 4),
+            Op::Upsert { k: 1, value: true, w: None, ttl_ms: None, remove_ttl: false },
+            Op::Upsert { k: 2, value: true, w: None, ttl_ms: Some(3000), remove_ttl: false },
+            del(1),
+            del(2),
+            adv(2000),
+            Op::TickWait,
+            Op::ReadAll { keys: vec![1, 2, 3] },
+            // positional multi-key reads with a key repeated (consecutively and not)
+            Op::MultiRead { keys: vec![1, 1, 2], variant: ReadVariant::MultiGetIterator },
+            Op::MultiRead { keys: vec![2, 1, 2, 2, 3], variant: ReadVariant::MultiGetMapIterator },
+            Op::MultiRead { keys: vec![1, 1, 2], variant: ReadVariant::MultiGet },
+        ],
         depth: if ctx.quick() { 6 } else { 7 },
         allow: None,
         oracle: agree_oracle(),
@@ -147,7 +182,9 @@ pub fn def(ctx: &Ctx) -> PropertyDef {
     for (p, core) in programs(quick) {
         let three = p.threads.len() >= 3;
         scenarios.push({
-                let nthreads = p.threads.len();
+                // long single-thread sequences get the two-thread bound ladder (every extra step multiplies the
+                // schedules with the three background threads)
+                let nthreads = p.threads.len().max(if p.threads.iter().any(|t| t.len() >= 4) { 2 } else { 1 });
                 program_scenario(p, oracle(), move |c| crate::harness::ilv::tier_cfg(c, nthreads))
             });
     }
